@@ -66,6 +66,7 @@ type run struct {
 	paths  map[int]string // name id -> base path (without .hyd)
 	notes  []string
 	wrong  []string
+	ex     *explorer.Explorer // one long-lived explorer per scenario, rescanned after every step (like the server's)
 }
 
 func (r *run) intern(s string) int {
@@ -254,25 +255,46 @@ func (r *run) observe() {
 			r.wrong = append(r.wrong, fmt.Sprintf("ReadSwampName of the file of name #%d (%d bytes) returned %d bytes, err=%v", n, len(r.sc.Names[strconv.Itoa(n)]), len(got), err))
 		}
 	}
-	ex := explorer.New(r.data)
-	if err := ex.Scan(context.Background()); err != nil {
-		r.notes = append(r.notes, "explorer scan failed: "+err.Error())
-	}
-	listing := []int{}
-	var total int64
-	for off := int64(0); ; off += 3 { // (small pages: pagination is part of the listing)
-		res := ex.ListSwamps(&explorer.SwampFilter{Offset: off, Limit: 3})
-		total = res.Total
-		for _, d := range res.Swamps {
-			listing = append(listing, r.intern(d.Sanctuary+"/"+d.Realm+"/"+d.Swamp))
+	list := func(ex *explorer.Explorer) ([]int, int64, int) {
+		if err := ex.Scan(context.Background()); err != nil {
+			r.notes = append(r.notes, "explorer scan failed: "+err.Error())
 		}
-		if len(res.Swamps) == 0 || off > 1000 {
-			break
+		listing := []int{}
+		var total int64
+		for off := int64(0); ; off += 3 { // (small pages: pagination is part of the listing)
+			res := ex.ListSwamps(&explorer.SwampFilter{Offset: off, Limit: 3})
+			total = res.Total
+			for _, d := range res.Swamps {
+				listing = append(listing, r.intern(d.Sanctuary+"/"+d.Realm+"/"+d.Swamp))
+			}
+			if len(res.Swamps) == 0 || off > 1000 {
+				break
+			}
 		}
+		sort.Ints(listing)
+		// the hierarchy views must agree with the flat listing
+		var viaTree int64
+		for _, sn := range ex.ListSanctuaries() {
+			for _, rn := range ex.ListRealms(sn.Name) {
+				viaTree += int64(len(ex.ListAllSwamps(sn.Name, rn.Name)))
+			}
+		}
+		if viaTree != total {
+			total = -viaTree - 1 // (cannot equal the listing length: the spec rejects the line)
+		}
+		return listing, total, int(ex.GetScanStatus().TotalFiles)
 	}
-	sort.Ints(listing)
-	hydfiles := int(ex.GetScanStatus().TotalFiles)
-	tw.Emit(ev{"ev": "observe", "reads": reads, "listing": listing, "total": total, "hydfiles": hydfiles})
+	// a fresh explorer (first scan) and the scenario's long-lived one (rescan over its previous index)
+	listing, total, hydfiles := list(explorer.New(r.data))
+	if r.ex == nil {
+		r.ex = explorer.New(r.data)
+	}
+	listing2, total2, hydfiles2 := list(r.ex)
+	tw.Emit(ev{"ev": "observe", "reads": reads, "listing": listing, "total": total, "hydfiles": hydfiles,
+		"listing2": listing2, "total2": total2, "hydfiles2": hydfiles2})
+	if len(listing2) != nfiles {
+		r.wrong = append(r.wrong, fmt.Sprintf("rescanning explorer lists %d swamps, %d files on disk", len(listing2), nfiles))
+	}
 	if len(listing) != nfiles {
 		r.wrong = append(r.wrong, fmt.Sprintf("explorer lists %d swamps, %d files on disk", len(listing), nfiles))
 	}
@@ -331,7 +353,17 @@ func main() {
 			if sc.Noise {
 				r.noise()
 			}
-			r.observe()
+			observe := func() {
+				defer func() {
+					if p := recover(); p != nil {
+						// the lookup or the explorer panicked: an observation no spec step explains
+						r.wrong = append(r.wrong, fmt.Sprintf("name lookup / explorer panicked: %v", p))
+						tw.Emit(ev{"ev": "panic"})
+					}
+				}()
+				r.observe()
+			}
+			observe()
 			for _, st := range sc.Steps {
 				func() {
 					defer func() {
@@ -343,7 +375,7 @@ func main() {
 					}()
 					r.do(st)
 				}()
-				r.observe()
+				observe()
 			}
 		}()
 		tw.Emit(ev{"ev": "done", "id": sc.ID})
